@@ -30,12 +30,11 @@ import sys
 from contextvars import ContextVar
 
 from twisted.internet import reactor
-from twisted.internet.defer import DeferredLock, inlineCallbacks
+from twisted.internet.defer import DeferredLock
 from twisted.internet.protocol import Factory, Protocol, connectionDone
-from twisted.internet.task import deferLater
 
 from netqasm.logging.glob import get_netqasm_logger
-from netqasm.backend.messages import MessageHeader, ErrorMessage, ErrorCode, deserialize_host_msg
+from netqasm.backend.messages import MessageHeader, ErrorMessage, ErrorCode, MsgDoneMessage, deserialize_host_msg
 
 from simulaqron.settings import simulaqron_settings
 from simulaqron.toolbox.manage_nodes import NetworksConfigConstructor
@@ -121,17 +120,19 @@ class NetQASMProtocol(Protocol):
             finally:
                 current_protocol.reset(token)
             d.addCallback(self.log_handled_message)
-            d.addErrback(self.log_error)
+            d.addErrback(self.log_error, msg_id)
 
     def log_handled_message(self, result):
         self._logger.info(f"Finished handling message with result = {result}")
 
-    @inlineCallbacks
-    def log_error(self, failure):
+    def log_error(self, failure, msg_id):
         self._logger.error(f"Handling message failed with failure = {failure}")
         sys.stderr.write(str(failure))
-        self._return_msg(msg=ErrorMessage(err_code=ErrorCode.GENERAL))
-        yield deferLater(reactor, 0.1, self.stop)
+        # Answer the host the way the executioner answers a failing instruction: an error, then the
+        # completion of this message. The host waits for the completion of every message it sent, and
+        # the other messages and connections of this node are not affected by the failure of one message.
+        self._return_msg(msg=bytes(ErrorMessage(err_code=ErrorCode.GENERAL)))
+        self._return_msg(msg=bytes(MsgDoneMessage(msg_id=msg_id)))
 
     def stop(self):
         self.factory.stop()
